@@ -1001,12 +1001,14 @@ impl Context<'_> {
                 .map(|(name, value)| (self.constant_name(name), format!("{}", value)))
                 .collect(),
 
+            // the attribute parser wraps the type of a DEFAULT component
+            Type::Default(inner, _) => self.to_rust_constants(inner),
+
             Type::Boolean
             | Type::Null
             | Type::String(..)
             | Type::OctetString(_)
             | Type::Optional(_)
-            | Type::Default(..)
             | Type::Sequence(_)
             | Type::SequenceOf(..)
             | Type::Set(_)
